@@ -898,6 +898,12 @@ func (gen *Generator) GenerateCallBySymbol(sym *SexpSymbol, args []Sexp, orig Se
 		}
 	}
 	if selfTail {
+		// the jump is only right while the name still denotes the function that
+		// is running: the guard looks the name up first, as an ordinary call
+		// resolves its callee before the arguments, and otherwise skips to the
+		// ordinary call emitted behind the jump.
+		guard := len(gen.instructions)
+		gen.AddInstruction(TailGuardInstr{sym, 0})
 		err := gen.GenerateCallArgsForFunction(gen.LookupKnownFunction(sym), args)
 		if err != nil {
 			return err
@@ -912,6 +918,8 @@ func (gen *Generator) GenerateCallBySymbol(sym *SexpSymbol, args []Sexp, orig Se
 			gen.AddInstruction(RemoveScopeInstr{})
 		}
 		gen.AddInstruction(GotoInstr{0})
+		gen.instructions[guard] = TailGuardInstr{sym, len(gen.instructions) - guard}
+		gen.AddInstruction(CallExprInstr{callee: sym, args: append([]Sexp(nil), args...)})
 	} else {
 		gen.AddInstruction(CallExprInstr{callee: sym, args: append([]Sexp(nil), args...)})
 	}
